@@ -43,7 +43,7 @@ def main(tier, replay, t0):
                 continue
             if c.gen[x["id"]].get("result") != "ok":
                 continue
-            base = {"wgsl": c.wgsl, "options": opt}
+            base = {"case_id": c.id, "wgsl": c.wgsl, "options": opt}
             if not camp.module_ok(c.id, x["id"]):
                 lost += 1
                 host = [s for s in spec.host_structs() if s in spec.emitted_structs()]
